@@ -30,6 +30,7 @@ CFG = {
     "gaps": [
         "none: C20 (all fields of statistics() + serialized_size() = Spec.stats of the element set) is unconditional for every well-formed value (shared Bitmap.WF); the former kernel hypothesis BStoreMinMax is discharged by BStore.min?_spec / max?_spec (C20_minmax); C20_groups characterises Spec.groups on the element list (keys strictly ascending = the distinct 16-bit prefixes, each with the positive number of elements under it)",
         "the theorems are about well-formed values (shared Bitmap.WF of Inv.lean; Lemmas/MiscWF.bitmapWF_iff bridges the local copy); that every public producer yields a well-formed value is the subject of the C01/C02/C04/C06/C17 producer theorems",
+        'model-fidelity audit (notes/fidelity-codecs.md): statistics() was modelled by one traversal per field (filter by kind + length / len); the Rust is a single loop bumping eight counters. The driver (`dump`, `stats`) now executes the mirrored loop Bitmap.statisticsM (StatsAcc.step per container), proved equal for EVERY value (Fidelity.statisticsM_eq, C20_statistics_mirror_eq), and C20 is restated for it (C20_mirror)',
     ],
     "level_text": "Theorems (Lean 4, kernel-checked) that for every well-formed model bitmap the fields of statistics() and serialized_size() equal the values the property assigns to its element set (prefix groups split at 4096, no run containers, 8 + sum(8 + min(2*card, 8192))); the model is tied to the Rust source by running both on the same generated histories in two build profiles and comparing statistics(), serialized_size() and the serialised bytes after every step. Unbounded quantifier = theorem; tie = sampled.",
     "level_note": "Trusted: Lean kernel; the hand-written model mirrors the code (checked by correspondence on generated histories only); Spec.stats as the meaning of the property; well-formedness of reachable values is the subject of C01/C02/C04 (producer theorems), here a hypothesis. n_bytes_* fields are allocator-dependent and not compared. See evidence coverage.proof_gaps.",
